@@ -387,6 +387,13 @@ func (op *ShellOperator) conversionEventHandler(crdName string, request *v1.Conv
 				return nil, fmt.Errorf("hook task prop error")
 			}
 
+			// A hook reports a failed conversion: stop the chain and relay its message.
+			if response.FailedMessage != "" {
+				return &conversion.Response{
+					FailedMessage: response.FailedMessage,
+				}, nil
+			}
+
 			// Set response objects as new objects for a next round.
 			request.Objects = response.ConvertedObjects
 
